@@ -307,10 +307,83 @@ def _call(args):
     return rep
 
 
+TASK_DEADLINE = {'quick': 600.0, 'thorough': 3600.0}   # seconds per task (a task normally takes seconds)
+
+
+def _call_guarded(args):
+    """One task under a watchdog PROCESS.  A regular expression that backtracks without end runs inside the C engine
+    holding the GIL, so no in-process alarm or thread can interrupt it; the watchdog child kills this worker after the
+    deadline, having first written down which task it was.  The parent then sees a broken pool."""
+    import json, signal, time
+    task, deadline, marker = args
+    me = os.getpid()
+    wd = os.fork()
+    if wd == 0:
+        try:
+            t_end = time.time() + deadline
+            while time.time() < t_end:
+                time.sleep(1.0)
+                if os.getppid() != me:      # the worker is gone (finished and killed us late, or was terminated)
+                    os._exit(0)
+            with open(marker, 'w') as f:
+                json.dump({'stream': task[0], 'payload': repr(task[1])[:4000], 'deadline': deadline,
+                           'texts': _texts_of(task[1])}, f)
+            os.kill(me, signal.SIGKILL)
+        finally:
+            os._exit(0)
+    try:
+        return _call(task)
+    finally:
+        try:
+            os.kill(wd, signal.SIGKILL)
+            os.waitpid(wd, 0)
+        except OSError:
+            pass
+
+
+def _texts_of(payload):
+    """The scripts a task carries literally (streams that generate their scripts from a seed carry none)."""
+    for part in (payload if isinstance(payload, (tuple, list)) else ()):
+        if isinstance(part, (list, tuple)) and part and all(isinstance(x, str) for x in part):
+            return list(part)[:4000]
+    return []
+
+
+def _report_overrun(rep, marker, deadline):
+    """A worker was killed by its watchdog: name the task; when it carries its scripts, find the ones the parser does
+    not get through within the timing oracle's budget (child process, killed on overrun) and report those."""
+    import json
+    try:
+        info = json.load(open(marker))
+    except Exception:  # noqa: BLE001
+        info = {'stream': '?', 'payload': '?', 'texts': []}
+    found = 0
+    if info.get('texts'):
+        import parse_timing as pt
+        items = [(f'watchdog/{i}', 0, t) for i, t in enumerate(info['texts'])]
+        try:
+            _, timeouts, _ = pt.run(items, max_restarts=3)
+        except Exception:  # noqa: BLE001
+            timeouts = []
+        for shape, n, script, budget in timeouts:
+            found += 1
+            rep.violate('parse-does-not-terminate-in-budget',
+                        f'parse_model did not return within {budget:.1f}s for a script of stream {info["stream"]!r} '
+                        f'(its worker had to be killed after {deadline:.0f}s)',
+                        {'stream': 'timing', 'shape': shape, 'n': n, 'text': script})
+    if not found:
+        rep.violate('non-termination',
+                    f'a task of stream {info["stream"]!r} was still running after {deadline:.0f}s (normally seconds); its '
+                    f'worker was killed', {'stream': 'watchdog', 'task': info['stream'], 'payload': info['payload']})
+    rep.notes.append(f'task watchdog fired for stream {info["stream"]}; the remaining tasks were not run')
+
+
 def run_pool(ctx, rep, tasks):
     """tasks: list of (registered stream name, payload).  Results are merged in task order (deterministic)."""
     if not tasks:
         return
+    import concurrent.futures as cf
+    import tempfile
     nproc = max(1, min(ctx.workers, len(tasks)))
     per_key = collections.Counter(v['key'] for v in rep.violations)
 
@@ -324,14 +397,21 @@ def run_pool(ctx, rep, tasks):
         r.disagreements = r.disagreements[:max(0, 200 - len(rep.disagreements))]
         rep.merge(r)
 
-    if nproc == 1:
-        for r in map(_call, tasks):
-            merge(r)
-    else:
-        mp = multiprocessing.get_context('fork')
-        with mp.Pool(nproc) as pool:
-            for r in pool.imap(_call, tasks, chunksize=1):
-                merge(r)
+    deadline = float(os.environ.get('FSIC_VERIF_TASK_DEADLINE') or TASK_DEADLINE.get(ctx.tier, 600.0) * max(1, ctx.scale))
+    tmp = tempfile.mkdtemp(prefix='fsic-verif-watchdog-')
+    marker = os.path.join(tmp, 'overrun.json')
+    try:
+        with cf.ProcessPoolExecutor(nproc, mp_context=multiprocessing.get_context('fork')) as pool:
+            try:
+                for r in pool.map(_call_guarded, [(t, deadline, marker) for t in tasks], chunksize=1):
+                    merge(r)
+            except cf.process.BrokenProcessPool:
+                if not os.path.exists(marker):
+                    raise                       # a worker died for another reason: infrastructure
+                _report_overrun(rep, marker, deadline)
+    finally:
+        import shutil
+        shutil.rmtree(tmp, ignore_errors=True)
     crashed = [n for n in rep.notes if n.startswith('worker crashed')]
     if crashed:
         raise RuntimeError(crashed[0])
